@@ -26,7 +26,8 @@ RULE = ('reference-encoded bpch images with 1-4 time blocks, 1-3 diagnostic '
         'scaled read, and every sixth image an irregular layout (an interior '
         'time block carries another tracer in one slot) that the fixed-layout '
         'reader must reject or read right and the default reader must '
-        'present block by block. '
+        'present block by block; plus the bundled sample file with its '
+        'tables (independent fixed-column table parser). '
         'non-trivial = >= 2 data blocks; distinct = digest of the spec.')
 ASSUMPTIONS = [
     'the reference codec follows the GEOS-Chem/GAMAP "CTM bin 02" '
